@@ -37,6 +37,12 @@ static bool   fits_i64(i128 v) { return v >= (i128)I64_MIN && v <= (i128)I64_MAX
 static bool   in_i64_range(double d) { return d > -TWO63 && d < TWO63; }                                // truncation to int64 is defined
 static void   mk(QE &e, unsigned k, u64 b) { e.Type = ET(k); e.Value.Number.Natural = b; }
 
+// truncating remainder (sign of the dividend) on magnitudes; |x|, |y| < 2^64 (no 128-bit division: ll2c mistranslates srem i128)
+static i128 ref_rem(i128 x, i128 y) {
+    u64 mx = (x < 0) ? (u64)(0 - x) : (u64)x, my = (y < 0) ? (u64)(0 - y) : (u64)y;
+    u64 m = mx % my;
+    return (x < 0) ? -(i128)m : (i128)m;
+}
 struct Opd { unsigned k; u64 b; };
 // LK / RK: a kind (1..3), or a set of kinds as 16 + bitmask (bit k), or 0 = any kind
 static unsigned pick_kind(int spec) {
@@ -138,7 +144,7 @@ extern "C" void h_rem() {
 #ifdef KF_EXCL_C04_natural_as_signed
     vf_assume(!big_nat);
 #endif
-#ifdef KF_ONLY_C04_natural_as_signed
+#if defined(KF_ONLY_C04_natural_as_signed) || defined(REM_WIDE)
     vf_assume(big_nat && !zero && !ovf);
 #endif
     QE l, r; mk(l, a.k, a.b); mk(r, b.k, b.b);
@@ -146,7 +152,13 @@ extern "C" void h_rem() {
     bool ok = tc.evaluateExpression(l, r, OP::Remainder);   // x % 0: CBMC's division-by-zero property fires inside operator%
     vf_assert(ok == !(zero || ovf), 1);                   // no value for a zero divisor and for INT64_MIN % -1 (the hardware remainder traps)
     if (!(zero || ovf)) {
-        i128 v = x % y;
+        i128 v;
+#ifdef REM_WIDE                                           // Natural operands >= 2^63: remainder on the magnitudes
+        v = ref_rem(x, y);
+#else                                                     // both operands inside int64: plain C remainder (the wide case is a separate query)
+        vf_assume(fits_i64(x) && fits_i64(y));
+        v = (i128)((i64)x % (i64)y);
+#endif
         vf_assume(fits_i64(v));
         vf_assert(l.Type == ET::IntegerNumber && l.Value.Number.Integer == (i64)v, 2);
     }
@@ -234,7 +246,7 @@ extern "C" void h_pow() {
     i128 x = (a.k == K_REAL) ? (i128)(i64)b2d(a.b) : ival(a.k, a.b);
     i128 y = (b.k == K_REAL) ? (i128)(i64)b2d(b.b) : ival(b.k, b.b);
     vf_assume(y >= -(i128)PE_MAX && y <= (i128)PE_MAX);
-    bool neg_even = (x < 0 && y < 0 && (y % 2) == 0);
+    bool neg_even = (x < 0 && y < 0 && (((u64)y) & 1ULL) == 0);
 #ifdef KF_EXCL_C04_pow_neg_even_sign
     vf_assume(!neg_even);
 #endif
